@@ -306,7 +306,7 @@ def build(job):
     workload = make_workload(job["wl"])
     mons = [ReducerE2EMonitor()] if job.get("e2e") else [DataflowMonitor(workload)]
     return Explorer(w, workload, mons, job.get("budget"), max_states=job.get("max_states", 200000),
-                    time_cap=job.get("time_cap", 1200))
+                    time_cap=job.get("time_cap", 600))
 
 
 def run_job(job):
